@@ -219,6 +219,79 @@ def sec_loading(rec, patches=None):
             rec.query(f"loading/path{pi}/declared==requested-axis{a}", hyps + [p.condition()], zi(lazy.shape[a]) == zi(rec_.output_shape[a]), key="C10/loading/declared-shape")
 
 
+def replay_chunk_order(chunks):
+    def run(cex):
+        import dask.array as da
+        from acryo import SubtomogramLoader, Molecules
+
+        rng = np.random.default_rng(3)
+        tomo = rng.normal(size=(36, 24, 24)).astype(np.float32)
+        # molecules whose order with respect to the chunk grid contains swaps and 3-cycles
+        z = [30, 5, 17, 29, 16, 4, 6, 31]
+        pos = np.array([[zz, 8 + (i % 3) * 4, 15 - (i % 2) * 6] for i, zz in enumerate(z)], dtype=np.float32)
+        mole = Molecules(pos)
+        ref = SubtomogramLoader(tomo, mole, order=1, output_shape=(3, 3, 3)).asnumpy()
+        bad = {}
+        for ch in [chunks, (12, 24, 24), (12, 12, 24), (9, 24, 8), (36, 24, 24)]:
+            ld = SubtomogramLoader(da.from_array(tomo, chunks=ch), mole, order=1, output_shape=(3, 3, 3))
+            got = ld.asnumpy()
+            if got.shape != ref.shape or not np.allclose(got, ref, atol=1e-5):
+                bad[str(ch)] = [int(i) for i in np.flatnonzero(np.abs(got - ref).reshape(len(z), -1).max(axis=1) > 1e-5)] if got.shape == ref.shape else "shape"
+        return len(bad) > 0, {"chunkings-with-other-subtomograms-than-numpy-input": bad}
+
+    return run
+
+
+def sec_chunk_order(rec, chunks=((30, 30), (60,), (60,)), n=3, patches=None):
+    """task k of construct_loading_tasks samples around molecule k whatever the chunk layout of the (lazy) tomogram"""
+    from . import c02
+
+    L = c02._load(patches)
+    API = L["acryo.backend._api"]
+    LD = L["acryo.loader._loader"]
+    rec.encodes("acryo/loader/_loader.py:SubtomogramLoader.construct_loading_tasks (task k <-> molecule k on a chunked tomogram)")
+    rec.assume("the tomogram is known by its shape and its dask chunk layout (ImgStub.chunks / numblocks / npartitions); its voxels are opaque")
+    ndi = stubs.NdiStub()
+    xp = stubs.make_backend(API, LD.np, ndi)
+    size = tuple(sum(c) for c in chunks)
+    P = [[real(f"p{k}_{i}") for i in range(3)] for k in range(n)]
+    hyps = []
+    for k in range(n):
+        for i in range(3):
+            hyps += [P[k][i].e >= 8, P[k][i].e <= size[i] - 8]
+    shp = (3, 3, 3)
+    tag = f"chunk-order[{'x'.join(str(len(c)) for c in chunks)} chunks,n={n}]"
+    rp = replay_chunk_order(tuple(c[0] for c in chunks))
+
+    def run():
+        rot = rotation.SymRotation([[0, 0, 0, 1]] * n)
+        ld = c02._make_loader(L, xp, stubs.ImgStub(size, chunks=chunks), P, rot, 1, 1, shp, False)
+        tasks = ld.construct_loading_tasks(backend=xp)
+        return [t.compute() for t in tasks]
+
+    paths = explore(run, assumptions=hyps, max_paths=3000)
+    o = [z3.Real(f"o{i}") for i in range(3)]
+    for i, p in enumerate(paths):
+        if not p.ok:
+            rec.fact(f"{tag}/path{i}/runs", False, key="C10/chunk-order/raises", detail={"exc": repr(p.exc)[:200]}, reproduced=rp({})[0])
+            continue
+        h = hyps + [p.condition()]
+        okn = len(p.result) == n
+        rec.fact(f"{tag}/path{i}/n-tasks", okn, key="C10/chunk-order/task-count", detail={"n": len(p.result)}, reproduced=True if okn else rp({})[0])
+        for k, r in enumerate(p.result[:n]):
+            for a in range(3):
+                if isinstance(r, stubs.ImgStub):
+                    tomo = o[a] + _real(zi(r.origin[a]))
+                elif isinstance(r, stubs.Sampled):
+                    tomo = c02.zsum_row(r.matrix, a, o) + _real(zi(r.src.origin[a]))
+                else:
+                    rec.error(f"{tag}/path{i}", f"task {k} is {r!r}")
+                    break
+                want = P[k][a].e + (o[a] - Fraction(shp[a] - 1, 2))
+                rec.query(f"{tag}/path{i}/task{k}-axis{a}", h, tomo == want, key="C10/chunk-order/molecule-k-task-k", replay=rp, twin=(k == 0 and a == 0))
+    rec.extra[tag] = {"paths": len(paths)}
+
+
 # ---------------------------------------------------------------------------------------
 # (ii) the shared template cache under thread interleavings
 
@@ -245,7 +318,12 @@ def sec_binning_chunks(rec, patches=None):
 
 def sections(tier):
     S = [("multi", "checks.c10", "sec_multi", {}), ("loading", "checks.c10", "sec_loading", {}), ("shared-state-race", "checks.c10", "sec_race", {}),
-         ("binning-chunks", "checks.c10", "sec_binning_chunks", {})]
+         ("binning-chunks", "checks.c10", "sec_binning_chunks", {}),
+         ("chunk-order-2x1x1", "checks.c10", "sec_chunk_order", {"chunks": ((30, 30), (60,), (60,)), "n": 3}),
+         ("chunk-order-3x1x1", "checks.c10", "sec_chunk_order", {"chunks": ((20, 20, 20), (60,), (60,)), "n": 3})]
+    if not quick(tier):
+        S.append(("chunk-order-3x2x1", "checks.c10", "sec_chunk_order", {"chunks": ((20, 20, 20), (30, 30), (60,)), "n": 3}))
+        S.append(("chunk-order-2x1x2-n4", "checks.c10", "sec_chunk_order", {"chunks": ((30, 30), (60,), (25, 35)), "n": 4}))
     for kind in ("zncc", "ncc", "pcc", "fsc"):
         for up in (1, 2) if quick(tier) else (1, 2, 3, 5):
             for axis in (0, 2) if quick(tier) else (0, 1, 2):
@@ -283,7 +361,11 @@ _MEMO_ATOMIC = """        cached = self.__dict__.get("_wedge")
         self._wedge = (np.array(quat), mask)
         return backend.asarray(mask)
 """
+_LD = "acryo.loader._loader"
 MUTANTS = [
+    ("chunk-order:tasks-sorted-by-first-axis-chunk-and-not-put-back (seeded change C10_5)", "checks.c10", "sec_chunk_order", {"chunks": ((20, 20, 20), (60,), (60,)), "n": 3},
+     {_LD: [("        for i in range(self.molecules.count()):\n            try:\n                subvol, mtx = _prep(",
+             "        _o = list(range(self.molecules.count()))\n        if getattr(image, 'npartitions', 1) > 1:\n            _o = np.argsort(np.searchsorted(np.cumsum(image.chunks[0])[:-1], self.molecules.pos[:, 0] / scale, side='right'), kind='stable').tolist()\n        for i in _o:\n            try:\n                subvol, mtx = _prep(")]}),
     ("race:wedge-mask-memoised-in-two-attributes (seeded changes C10_1 / C10_4)", "checks.c10", "sec_race", {}, {_AB: [(_MEMO_OLD, _MEMO_TWO_STORES)]}),
     ("cache:revert-snapshot-fix", "checks.c10", "sec_cache", {"n_threads": 2}, {_AB: [("next(iter(list(self._dict.values())), None)", "next(iter(self._dict.values()), None)")]}),
     ("cache:check-then-act-on-keys", "checks.c10", "sec_cache", {"n_threads": 2}, {_AB: [("next(iter(list(self._dict.values())), None)", "next(iter(self._dict.items()), (None, None))[1]")]}),
@@ -309,10 +391,12 @@ def run(tier, procs=None, only=None):
                     "on one axis, map_coordinates on a symbolic mesh opaque). (ii) TemplateMaskCache.get/set are translated from their CPython bytecode into per-thread "
                     "steps over a shared dict model; the schedule is a z3 variable; no thread may raise and every thread must obtain the stored (template, mask).",
         bounds={"declared shapes": "box 6^3, max_shifts symbolic in [0, 6) on one axis (others 1.0, 0.5), upsample in " + ("{1,2}" if quick(tier) else "{1,2,3,5}"),
+                "chunk-order": "60^3 tomogram split into 2 or 3 chunks on the first axis (thorough: also 3x2x1 and 2x1x2 with 4 molecules), 3 molecules at symbolic positions",
                 "cache": "2 and 3 threads, one get() each after construction, context switch allowed between any two bytecodes"},
         trusted_base=TRUSTED + ["HybridNdi (map_coordinates on a symbolic mesh -> array of the mesh's shape)", "real numpy/scipy for the concrete landscape",
                                 "CPython dict semantics as modelled in checks/c10_cache.py (iteration raises RuntimeError if the dict changed size)"],
-        outside=["equality of results across dask schedulers, worker counts and tomogram chunkings (dask's execution semantics, not encoded)",
+        outside=["equality of results across dask schedulers and worker counts (dask's execution semantics, not encoded); the chunk layout of the tomogram is covered "
+                 "only where acryo's own code reads it (task k <-> molecule k, binning), not dask's block arithmetic",
                  "Backend._default races with a second backend installed (cupy absent)"],
         mutants=MUTANTS if (not quick(tier) and not only) else None,
     )
@@ -320,6 +404,11 @@ def run(tier, procs=None, only=None):
 
 def replay(data):
     key = data.get("key", "")
+    if "chunk-order" in key:
+        ok, detail = replay_chunk_order((18, 24, 24))(data.get("cex") or {})
+        print("replay:", detail)
+        print("REPRODUCED" if ok else "not reproduced")
+        return 1 if ok else 0
     kind = next((k for k in ("zncc", "ncc", "pcc", "fsc") if f"[{k}" in key), "zncc")
     up = 2 if ">1" in key else 1
     ok, detail = replay_landscape(kind, up)(data.get("cex") or {})
